@@ -222,7 +222,11 @@ class C14(Check):
         # one is -1 (never met), 0.0 or the integer 0 (met only by an error estimate of exactly zero)
         t = stream(rk, "tols")
         cfg["tols"] = [t.choice([-1.0, -1.0, 1e-30, 1e-12]), t.choice([-1.0, -1.0, -1.0, 0.0, 0])]
-        if strategy in ("dimension_wise", "extend_split", "cell") and stream(rk, "reference").random() < 0.4:
+        # (not for extend-split versions 1 / 2: there the from-scratch value of a re-evaluated first leg differs from the incrementally
+        # maintained one even without interruption (9.2), and with a reference solution the estimates that steer refinement read those
+        # values - a false alarm of this kind was raised by a soak at seed 4, run 197, and corrected in round 14)
+        if strategy in ("dimension_wise", "extend_split", "cell") and not (strategy == "extend_split" and cfg.get("version") in (1, 2)) \
+                and stream(rk, "reference").random() < 0.4:
             # an operation with a reference solution: the driver then works with the global error estimate (another return path of
             # every evaluation); the tolerances above stay out of reach of a hash-valued integrand
             rr = stream(rk, "reference_values")
@@ -431,6 +435,12 @@ class C14(Check):
         # a quarter of the first legs ask for the re-evaluation at the end: the stop is then a from-scratch evaluation, and the
         # continuation starts from whatever bookkeeping that leaves behind
         reeval = H(rk, "reeval_first_leg", k) < 0.25
+        if reeval and st == "extend_split" and cfg.get("version") in (1, 2) and (cfg["estimator"] == "real" or cfg.get("automatic")):
+            # in versions 1 / 2 the from-scratch value of a re-evaluated leg differs from the incrementally maintained one (9.2); the
+            # library's estimator and the automatic decision read those values, so the continuation legitimately takes another path than
+            # a run that re-evaluates only at its end - no reference exists for such a leg (false alarm of a soak at seed 4, run 197)
+            ctx.probe("reevaluated_first_leg_not_drawn_where_decisions_read_values")
+            reeval = False
         if reeval:
             twin = self.twin_reeval(cfg, rk, ctx, st, final, N)
             if twin == "diverged":
